@@ -94,6 +94,19 @@ func MBMetas() {
 	)
 }
 
+// WSMetas appends (after the MBMetas shapes) keys that differ only in surrounding white space - different keys:
+// 12 = {"k ": w1}, 13 = {" k": w2, "k": w3, "k\n": w4}.
+func WSMetas() {
+	MBMetas()
+	if len(Metas) > 12 {
+		return
+	}
+	Metas = append(Metas,
+		map[string]string{"k ": "w1"},
+		map[string]string{" k": "w2", "k": "w3", "k\n": "w4"},
+	)
+}
+
 // Storable is the reference's own statement of what the snapshot format can represent (a two-byte entry count, a
 // one-byte key length, a two-byte value length - all in BYTES); deliberately not the repository's Validate.
 func Storable(m map[string]string) bool {
